@@ -202,7 +202,7 @@ CORPUS = _corpus()
 
 
 def generate(rng, tier):
-    ncomp = 110 if tier == "quick" else 900
+    ncomp = 90 if tier == "quick" else 900
     cases = list(CORPUS)
     # every slot kind x payload kind x {0, one payload, None}: the systematic part
     for kind in KINDS:
